@@ -13,8 +13,12 @@ import (
 var _ HookTimer = &MutationHookTimer{}
 
 type MutationHookTimer struct {
-	mu             sync.RWMutex
-	cachedMin      def.Task
+	mu        sync.RWMutex
+	cachedMin def.Task
+	// cacheStale is true if cachedMin has been updated to be scheduled later or to have lower priority.
+	// The timer is still early enough in that case, but cachedMin may not be the min element anymore:
+	// the next mutation must update the timer.
+	cacheStale     bool
 	repo           def.Repository
 	timerReset     bool
 	isTimerStarted bool
@@ -65,6 +69,7 @@ func (t *MutationHookTimer) _update(ctx context.Context) error {
 	next, err := t.repo.GetNext(ctx)
 	// resets to zero-value if err.
 	t.cachedMin = next
+	t.cacheStale = false
 
 	if err == nil {
 		t.timerReset = true
@@ -86,7 +91,8 @@ var farFuture = time.Now().Add(30 * 365 * 24 * time.Hour)
 func (t *MutationHookTimer) AddTask(ctx context.Context, param def.TaskUpdateParam) {
 	t.mu.Lock()
 	defer t.mu.Unlock()
-	if t.cachedMin.Id == "" || param.ToTask(def.NeverExistentId, farFuture).Less(t.cachedMin) {
+	if t.cachedMin.Id == "" || t.cacheStale ||
+		param.ToTask(def.NeverExistentId, farFuture).Less(t.cachedMin) {
 		t.update(ctx)
 	}
 }
@@ -95,10 +101,13 @@ func (t *MutationHookTimer) UpdateById(ctx context.Context, id string, param def
 	t.mu.Lock()
 	defer t.mu.Unlock()
 
-	if t.cachedMin.Id == "" {
+	if t.cachedMin.Id == "" || t.cacheStale {
 		t.update(ctx)
 		return
 	}
+
+	// cachedMin is normalized. Compare it with normalized values.
+	param = param.Normalize()
 
 	if id == t.cachedMin.Id {
 		if param.Priority.IsNone() && param.ScheduledAt.IsNone() {
@@ -113,19 +122,22 @@ func (t *MutationHookTimer) UpdateById(ctx context.Context, id string, param def
 			t.update(ctx)
 			return
 		}
+		// cachedMin is demoted. Other tasks may precede it now.
+		t.cacheStale = true
+		return
 	}
 
-	// 1) id is updated to be before
+	// 1) id is updated to be before, or to the same time: it may precede cachedMin by priority or age.
 	updatedToBefore := param.ScheduledAt.IsSome() &&
-		param.ScheduledAt.Value().Before(t.cachedMin.ScheduledAt)
+		!param.ScheduledAt.Value().After(t.cachedMin.ScheduledAt)
 	if updatedToBefore {
 		t.update(ctx)
 		return
 	}
-	// 2) id is scheduled at the same time as cachedMin is, and priority is updated.
+	// 2) id may be scheduled at the same time as cachedMin is, and priority is updated.
 	updatedToHigherPriority := param.Priority.IsSome() &&
 		(param.ScheduledAt.IsNone()) &&
-		param.Priority.Value() > t.cachedMin.Priority
+		param.Priority.Value() >= t.cachedMin.Priority
 	if updatedToHigherPriority {
 		t.update(ctx)
 		return
@@ -135,7 +147,7 @@ func (t *MutationHookTimer) UpdateById(ctx context.Context, id string, param def
 func (t *MutationHookTimer) Cancel(ctx context.Context, id string) {
 	t.mu.Lock()
 	defer t.mu.Unlock()
-	if t.cachedMin.Id == "" || t.cachedMin.Id == id {
+	if t.cachedMin.Id == "" || t.cacheStale || t.cachedMin.Id == id {
 		t.update(ctx)
 	}
 }
@@ -145,7 +157,7 @@ func (t *MutationHookTimer) MarkAsDispatched(ctx context.Context, id string) {
 	t.mu.Lock()
 	defer t.mu.Unlock()
 
-	if id == t.cachedMin.Id {
+	if (t.cachedMin.Id != "" && t.cacheStale) || id == t.cachedMin.Id {
 		t.update(ctx)
 	}
 }
@@ -169,6 +181,7 @@ func (t *MutationHookTimer) StopTimer() {
 	}
 	t.timerReset = false
 	t.cachedMin = def.Task{}
+	t.cacheStale = false
 	t.isTimerStarted = false
 }
 
